@@ -9,6 +9,27 @@ use std::time::Instant;
 
 pub const DEFAULT_SEED: u64 = 20260926;
 
+/// Very large thorough batches keep only the distinct-case hashes whose low `DISTINCT_SHIFT` bits are
+/// zero: the reported `distinct_nontrivial` is then the exact number of distinct cases inside that
+/// hash-sample, a conservative lower bound on the total (the rule text of the evidence says so).
+pub static DISTINCT_SHIFT: std::sync::atomic::AtomicU32 = std::sync::atomic::AtomicU32::new(0);
+
+pub fn keep_distinct(st: &mut Stats, h: u64) {
+    let sh = DISTINCT_SHIFT.load(std::sync::atomic::Ordering::Relaxed);
+    if sh == 0 || h & ((1u64 << sh) - 1) == 0 {
+        st.distinct.insert(h);
+    }
+}
+
+pub fn distinct_rule_suffix() -> String {
+    let sh = DISTINCT_SHIFT.load(std::sync::atomic::Ordering::Relaxed);
+    if sh == 0 {
+        String::new()
+    } else {
+        format!("; in this tier only cases whose hash has {} low zero bits are counted as distinct (an exact count inside a 1/{} hash-sample, i.e. a lower bound on the total)", sh, 1u64 << sh)
+    }
+}
+
 #[derive(Clone, Copy, Debug, PartialEq, Eq)]
 pub enum Tier {
     Quick,
